@@ -145,6 +145,51 @@ def nontrivial(c):
     return n >= 3 and int(w[2 + 2 * n]) >= 1
 
 
+def parse_case(c):
+    w = c.split()
+    n = int(w[1]); i = 2
+    fees = [(int(w[i + 2 * k]), int(w[i + 2 * k + 1])) for k in range(n)]; i += 2 * n
+    m = int(w[i]); i += 1
+    edges = [(int(w[i + 2 * k]), int(w[i + 2 * k + 1])) for k in range(m)]; i += 2 * m
+    budget, seed, flag, k = int(w[i]), int(w[i + 1]), int(w[i + 2]), int(w[i + 3]); i += 4
+    old = [int(x) for x in w[i:i + k]]
+    return n, fees, edges, budget, seed, flag, old
+
+
+def fmt_case(n, fees, edges, budget, seed, flag, old):
+    return " ".join(("lin %d %s %d %s %d %d %d %d %s" % (
+        n, " ".join("%d %d" % p for p in fees), len(edges), " ".join("%d %d" % e for e in edges),
+        budget, seed, flag, len(old), " ".join(map(str, old)))).split())
+
+
+def shrink(c):
+    """smaller variants of a failing case: drop a transaction (renumbering), drop an edge, simplify fees / seed"""
+    try:
+        n, fees, edges, budget, seed, flag, old = parse_case(c)
+    except Exception:
+        return
+    for t in range(n - 1, -1, -1):
+        if n <= 1:
+            break
+        ren = lambda x: x if x < t else x - 1
+        # keep reachability: connect t's parents to t's children
+        par = [p for (p, ch) in edges if ch == t]
+        chi = [ch for (p, ch) in edges if p == t]
+        e2 = sorted({(ren(p), ren(ch)) for (p, ch) in edges if p != t and ch != t} | {(ren(p), ren(ch)) for p in par for ch in chi})
+        yield fmt_case(n - 1, fees[:t] + fees[t + 1:], e2, budget, seed, flag, [ren(x) for x in old if x != t])
+    for j in range(len(edges)):
+        yield fmt_case(n, fees, edges[:j] + edges[j + 1:], budget, seed, 0 if flag else flag, old)
+    for t in range(n):
+        f, s = fees[t]
+        for nf, ns in ((f, 1), (f // 2, s), (1, s), (0, s)):
+            if (nf, ns) != (f, s):
+                yield fmt_case(n, fees[:t] + [(nf, ns)] + fees[t + 1:], edges, budget, seed, flag, old)
+    if seed != 1:
+        yield fmt_case(n, fees, edges, budget, 1, flag, old)
+    if old and not flag:
+        yield fmt_case(n, fees, edges, budget, seed, 0, [])
+
+
 class LinTie(Tie):
     """Translation validation: the model cannot predict Linearize's (seed dependent) result, it validates it.
     Only the section before ' ## ' is the model's own prediction; the implementation's remaining sections are
@@ -171,7 +216,7 @@ class LinTie(Tie):
 
 
 TIES = [LinTie("linearize_tv", "tie/drivers/lin_drv.cpp", "Extract_Lin.v", "lin_driver.ml", gen,
-               predicate="driver", nontrivial=nontrivial,
+               predicate="driver", nontrivial=nontrivial, shrink=shrink,
                classify=lambda c: "n<=7" if int(c.split()[1]) <= 7 else ("n<=24" if int(c.split()[1]) <= 24 else "n<=64"))]
 
 LEVEL_TEXT = ("Translation validation with proved validators. Proved in Coq for all inputs: (1) ChunkLinearization's model: chunks are "
